@@ -136,6 +136,15 @@ theorem advance_count (r : Rule) (st st' : State) (f : Bool) (h : advance r st f
     | (cases h; rfl)
     | (have := fixDay_count r _ st' _ h; exact this)
 
+/-- `init` copies the rule's count -/
+theorem init_count (r : Rule) (st : State) (h : init r = .ok st) : st.count = r.count := by
+  unfold init at h
+  simp only [bind, Except.bind, pure, Except.pure] at h
+  repeat' split at h
+  all_goals first
+    | (cases h; done)
+    | (injection h with h; subst h; rfl)
+
 /-! ### one period and the whole iteration -/
 
 theorem step_char (r : Rule) (st : State) :
